@@ -88,9 +88,26 @@ class GPTNeoXAssignment(WorkAssignment):
         elif set(self.pipe_parallel_peers) == set(self.data_parallel_peers):
             self.pipe_parallel_peer_group = self.data_parallel_group
         else:
-            self.pipe_parallel_peer_group = dist.new_group(
-                self.pipe_parallel_peers,
+            # dist.new_group() must be called by every rank in the world with
+            # the same ranks in the same order (even by ranks which are not
+            # members) so create the group of every pipeline stage and keep
+            # the one this rank belongs to
+            pipe_parallel_ranks = sorted(
+                {
+                    topology.get_coord(r).pipe
+                    for r in range(topology.world_size())
+                },
             )
+            for pipe_parallel_rank in pipe_parallel_ranks:
+                group = dist.new_group(
+                    [
+                        r
+                        for r in range(topology.world_size())
+                        if topology.get_coord(r).pipe == pipe_parallel_rank
+                    ],
+                )
+                if pipe_parallel_rank == self.pipe_parallel_rank:
+                    self.pipe_parallel_peer_group = group
 
         worker_loads = [0.0 for _ in self.pipe_parallel_peers]
         self._inv_assignments = {
